@@ -15,7 +15,7 @@ def run(rep):
     # resolution (C08); their contracts on the functions every compiled clause goes through are part of this check
     from .common import UNIFY_FAMILY
     from . import enginep, syntactic
-    fw.deductive(rep, UNIFY_FAMILY, ['engine_terms'], ['terms.smt2'])
+    fw.deductive(rep, UNIFY_FAMILY, ['engine_terms'], ['terms.smt2'], timeout=25 if rep.tier == 'quick' else 60)
     enginep.engine_deductive(rep, ['engine.YP.query', 'engine.YP.match_dynamic', 'engine.YP._match_all_clauses', 'engine.Answer.match'] + enginep.CTOR_API, heap_lemmas=False)
     control.parse_deductive(rep)
     control.program_deductive(rep)
